@@ -116,6 +116,7 @@ static bool year_interval(const In& in, i128* lo, i128* hi) {
 }
 
 static void run(const vf::Args& a, vf::Evidence& ev, vf::Reporter& rep) {
+  vf::History::enabled() = true;  // failing cases carry the cases that ran just before them (state between calls)
   E = &ev;
   ev.rule = "rapidcheck: six int64 fields from a mixture (in-range, just outside, multiples of the carry unit +-1, "
             "+-2^k+-d, int64 extremes, uniform); the year is drawn last inside the exactly computed admissible "
